@@ -154,6 +154,38 @@ func alphabet(thorough bool) []op {
 	return ops
 }
 
+// nSources and preload configure the cache of runSequence (default: two
+// sources, no preload); the extra passes of TestCheck change them.
+var (
+	nSources = 2
+	preload  = false
+	// refreshInterval: 0 (automatic refresh off) or an interval far beyond the
+	// virtual time any sequence spans, so that no automatic refresh ever falls
+	// due and everything has to be exactly as with the interval off
+	refreshInterval = time.Duration(0)
+)
+
+// alphabet3: the third source's own operations and a reduced set of the
+// others, for the pass with three sources.
+func alphabet3() []op {
+	return []op{
+		{name: "S0.P=t1", kind: "set", src: 0, pid: pP, ver: 2},
+		{name: "S1.P=t2", kind: "set", src: 1, pid: pP, ver: 3},
+		{name: "S2.P=t3", kind: "set", src: 2, pid: pP, ver: 4},
+		{name: "S2.P=t1", kind: "set", src: 2, pid: pP, ver: 2},
+		{name: "S2.P=gone", kind: "set", src: 2, pid: pP, ver: 0},
+		{name: "S1.P=gone", kind: "set", src: 1, pid: pP, ver: 0},
+		{name: "S2.Q=t1", kind: "set", src: 2, pid: pQ, ver: 2},
+		{name: "S2.fail", kind: "fail", src: 2},
+		{name: "Refresh", kind: "refresh"},
+		{name: "RefreshCancelled@2", kind: "cancel", src: 2},
+		{name: "RefreshCancelled@1", kind: "cancel", src: 1},
+		{name: "Get(P)", kind: "get", pid: pP},
+		{name: "Get(Q)", kind: "get", pid: pQ},
+		{name: "advance(ttl+)", kind: "advance", dur: ttl + time.Second},
+	}
+}
+
 // ---- reference model
 
 type pstate struct {
@@ -205,8 +237,15 @@ func runSequence(t *testing.T, seq []op) (v *violation) {
 		}
 	}()
 	synctest.Test(t, func(t *testing.T) {
-		srcs := []*source{{idx: 0, recs: map[peer.ID]int{}}, {idx: 1, recs: map[peer.ID]int{}}}
-		pc, err := pcache.New(pcache.WithSource(srcs[0], srcs[1]), pcache.WithTTL(ttl), pcache.WithRefreshInterval(0), pcache.WithPreload(false))
+		var srcs []*source
+		var psrcs []pcache.ProviderSource
+		for i := 0; i < nSources; i++ {
+			srcs = append(srcs, &source{idx: i, recs: map[peer.ID]int{}})
+			psrcs = append(psrcs, srcs[i])
+		}
+		// with preload the constructor itself refreshes once; the sources are
+		// still empty then, so the reference model has nothing to record
+		pc, err := pcache.New(pcache.WithSource(psrcs...), pcache.WithTTL(ttl), pcache.WithRefreshInterval(refreshInterval), pcache.WithPreload(preload))
 		if err != nil {
 			panic(err)
 		}
@@ -244,7 +283,13 @@ func runSequence(t *testing.T, seq []op) (v *violation) {
 			case "list":
 				pc.List()
 			case "get":
-				before := []int{srcs[0].fetches, srcs[1].fetches}
+				fetchCount := func() (n int) {
+					for _, s := range srcs {
+						n += s.fetches
+					}
+					return n
+				}
+				before := fetchCount()
 				wasListed := listVer(o.pid)
 				st := m.get(o.pid)
 				pi, err := pc.Get(ctx, o.pid)
@@ -253,7 +298,7 @@ func runSequence(t *testing.T, seq []op) (v *violation) {
 					return
 				}
 				got := verOf(pi)
-				nf := (srcs[0].fetches - before[0]) + (srcs[1].fetches - before[1])
+				nf := fetchCount() - before
 				// what a miss-fetch hands to the cache
 				if nf > 0 {
 					for _, s := range srcs {
@@ -436,7 +481,7 @@ func mustParse(s string) time.Time {
 
 func TestCheck(t *testing.T) {
 	r := vp.New("C06", "model_checking",
-		"every sequence of <= depth operations over the alphabet {per-source content changes of provider P (appear, advance, regress on the other source, disappear, without time) and Q, source failure toggles, Refresh, Refresh cancelled while source 0 / source 1 is being read, Refresh overlapped by a second Refresh issued inside a source call, Get of P / Q / a never-reported provider, List, clock advances of ttl/2 and ttl+1s}, each run on a fresh real ProviderCache with two fake sources inside a synctest bubble (virtual clock), compared after every step with a reference model (freshest record ever handed to the cache per provider, first-unreported time, negative entries, Fetch call counts); plus a lifecycle layer of macro steps (change what the sources report for one provider, let 0 / ttl/2 / ttl+1s pass, Refresh): every sequence of 6 (quick) / 7 (thorough) macro steps with one source and of 4 / 5 with two sources, which reaches appear - disappear - reappear - expire histories of 15-25 flat operations; and the flat sequences once more, one operation shallower, with the three advertisement times rendered with a zone offset, in UTC and with fractional seconds, so that the strings sort in the opposite order of the instants. states = distinct sequences; transitions = operations executed; traces = sequences executed on the real cache.",
+		"every sequence of <= depth operations over the alphabet {per-source content changes of provider P (appear, advance, regress on the other source, disappear, without time) and Q, source failure toggles, Refresh, Refresh cancelled while source 0 / source 1 is being read, Refresh overlapped by a second Refresh issued inside a source call, Get of P / Q / a never-reported provider, List, clock advances of ttl/2 and ttl+1s}, each run on a fresh real ProviderCache with two fake sources inside a synctest bubble (virtual clock), compared after every step with a reference model (freshest record ever handed to the cache per provider, first-unreported time, negative entries, Fetch call counts); plus a lifecycle layer of macro steps (change what the sources report for one provider, let 0 / ttl/2 / ttl+1s pass, Refresh): every sequence of 6 (quick) / 7 (thorough) macro steps with one source and of 4 / 5 with two sources, which reaches appear - disappear - reappear - expire histories of 15-25 flat operations; and the flat sequences once more, one operation shallower, with the three advertisement times rendered with a zone offset, in UTC and with fractional seconds, so that the strings sort in the opposite order of the instants; the same depth once more with three sources (alphabet: the third source's content changes and failure, refreshes cancelled while the second / the third source is being read, Get, clock advance) and with the two-source alphabet on a cache constructed with preload, and on one with the automatic-refresh interval set to a value that never falls due (everything must be as with the interval off), the last two also with the lifecycle layer one macro step shallower (appear - disappear - expire histories). states = distinct sequences; transitions = operations executed; traces = sequences executed on the real cache.",
 		"reference model is the oracle (trusted; written from the statement); nothing is asserted right after a refresh that returned an error, only after the next successful one",
 		"expiry is asserted only in histories in which every source responded in every refresh since the provider was last reported",
 		"records are compared by advertisement time, not identity (equal times are not ordered by the statement)",
@@ -505,7 +550,7 @@ func TestCheck(t *testing.T) {
 		}
 	}
 	rec(nil)
-	lifecycle(t, r, thorough)
+	lifecycle(t, r, thorough, 0)
 	// second pass, one operation shallower, with the mixed rendering of the
 	// advertisement times ("most recent" is about the instant, not the string)
 	verTime = verTimeMixed
@@ -520,6 +565,21 @@ func TestCheck(t *testing.T) {
 	keyPrefix = "mixed-times|"
 	rec(nil)
 	verTime, keyPrefix = verTimeUniform, ""
+	// third and fourth pass: three sources (the third source's own operations,
+	// refreshes cancelled while the second / third source is being read), and
+	// the default two-source alphabet on a cache constructed with preload
+	saveOps := ops
+	ops, nSources, keyPrefix = alphabet3(), 3, "three-sources|"
+	rec(nil)
+	ops, nSources, preload, keyPrefix = saveOps, 2, true, "preload|"
+	rec(nil)
+	lifecycle(t, r, thorough, 1)
+	// fifth pass: the automatic-refresh interval set (to a value that never
+	// falls due within a sequence, far above the time-to-live)
+	preload, refreshInterval, keyPrefix = false, 100000*time.Hour, "interval-set|"
+	rec(nil)
+	lifecycle(t, r, thorough, 1)
+	nSources, preload, refreshInterval, keyPrefix = 2, false, 0, ""
 	t.Logf("violations: %d", r.Violations())
 }
 
@@ -527,7 +587,7 @@ func TestCheck(t *testing.T) {
 // appear / disappear / reappear / expire histories are reached with macro
 // steps "change what the sources report for P, let time pass, Refresh" at a
 // depth the flat alphabet cannot afford. One and two sources.
-func lifecycle(t *testing.T, r *vp.Recorder, thorough bool) {
+func lifecycle(t *testing.T, r *vp.Recorder, thorough bool, shallower int) {
 	type macro struct {
 		name   string
 		s0, s1 int // version to set at source 0 / 1; -1 = leave as is
@@ -568,6 +628,7 @@ func lifecycle(t *testing.T, r *vp.Recorder, thorough bool) {
 	if thorough {
 		d1, d2 = 7, 5
 	}
+	d1, d2 = d1-shallower, d2-shallower
 	run := func(layer string, kinds []macro, depth int) {
 		var rec func(seq []int)
 		rec = func(seq []int) {
@@ -591,7 +652,7 @@ func lifecycle(t *testing.T, r *vp.Recorder, thorough bool) {
 					}
 					flat = append(flat, op{name: "Refresh", kind: "refresh"})
 				}
-				key := "life|" + layer + "|" + strings.Join(names, " ; ")
+				key := keyPrefix + "life|" + layer + "|" + strings.Join(names, " ; ")
 				if !r.Mine(key) {
 					return
 				}
